@@ -2,7 +2,7 @@
 import copy
 import math
 
-from .. import common as C, gen, scen
+from .. import common as C, gen, scen, translators
 from ..runner import Check
 from . import drvgen, drvcommon as D
 
@@ -100,7 +100,7 @@ def verbosity_pairs(r, n):
 
 
 def run():
-    chk = Check("C05")
+    chk = Check("C05", props_modules=["GFO.Props.C05", "GFO.Gen.StopGenCheck"], gen_steps=(translators.gen_stop,))
     chk.build_and_audit()
     r = C.rng("C05")
     quick = C.tier() != "thorough"
